@@ -1,5 +1,6 @@
 import Juniper.Generated.Comb
 import Juniper.Model.CombSkel
+import Juniper.Proofs.ValueFacts
 /-!
 # Tie lemmas: the regenerated control skeleton of every combinator method is the one its hand-written
 machine was written for (C07–C09, tie 1)
@@ -139,6 +140,37 @@ theorem Tie.stOne :
 
 theorem Tie.stReduce :
     skStReduce = CombSkel.stReduce := by decide
+
+theorem Tie.itChan :
+    skItChanNext = CombSkel.itChanNext := by decide
+
+theorem Tie.itEmpty :
+    skItEmptyNext = CombSkel.itEmptyNext := by decide
+
+theorem Tie.stChan :
+    skStChanNext = CombSkel.stChanNext ∧
+    skStChanClose = CombSkel.stChanClose := by decide
+
+theorem Tie.stEmpty :
+    skStEmptyNext = CombSkel.stEmptyNext ∧
+    skStEmptyClose = CombSkel.stEmptyClose := by decide
+
+theorem Tie.stError :
+    skStErrorNext = CombSkel.stErrorNext ∧
+    skStErrorClose = CombSkel.stErrorClose := by decide
+
+set_option maxRecDepth 4000 in
+/-- `xrand.rSampleStream` (C09: the deferred `Close`; C08: returns the error itself) -/
+theorem Tie.sample :
+    skSampleStream = CombSkel.sampleStream := by decide
+
+set_option maxRecDepth 4000 in
+/-- the exported API of the three packages is the one the models and the harness generator cover; a
+function added to `iterator` / `stream`, or an `xslices` function that gets (or has) a namesake there,
+breaks this lemma until model, driver, harness and theorems cover it -/
+theorem Tie.api :
+    itApi = CombSkel.itApi ∧ stApi = CombSkel.stApi ∧
+    xsApi.filter (fun n => CombSkel.itApi.contains n || CombSkel.stApi.contains n) = CombSkel.xsCounterparts := by decide
 
 /-- the caller's-goroutine combinators and reducers start no goroutine and touch no channel -/
 theorem Tie.sequential : combConcurrencyOps = 0 := by decide
